@@ -149,7 +149,9 @@ func (s *shard) add(term, text string, nontrivial bool) {
 		s.files = append(s.files, &emit.CaseFile{
 			Name:    fmt.Sprintf("%s_%02d", s.prefix, len(s.files)),
 			Imports: s.imports,
-			Prelude: "Local Open Scope string_scope.\nLocal Open Scope Z_scope.",
+			// NB: no numeric scope may be opened here: the driver parses `Print Bad` and
+			// nat literals must print without a %nat suffix.
+			Prelude: "Local Open Scope string_scope.",
 			Check:   s.check})
 	}
 	s.files[len(s.files)-1].Add(term, text)
